@@ -94,13 +94,16 @@ impl<T: ?Sized> Mutex<T> {
                         }
                         self.unlock();
                     } else {
+                        if b_ignore {
+                            // we keep waiting for the lock, so there is nothing to give
+                            // back: a release registered here would make the next unlock
+                            // pass the lock on although this waiter takes it as well
+                            continue;
+                        }
                         // register
                         cur.set_release();
                         // re-check unpark status
                         if cur.is_unparked() && cur.take_release() {
-                            if b_ignore {
-                                break;
-                            }
                             self.unlock();
                         }
                     }
